@@ -52,6 +52,7 @@ def c02(ctx):
         pool.add(s)
     pool |= {b"1.0.0-ALPHA", b"1.0.0-alpha", b"1.0", b"1.0.0.0", b"1.0.0.1", b"1.0.0-2147483648", b"1.0.0-3", b"1.0.0-22",
              b"1.0.0-9999999999", b"1.0.0-10000000000", b"1", b"1.00", b"1.01.1", b"1.0.0-a.B", b"1.0.0-A.b"}
+    pool |= {s_.swapcase() for s_ in list(pool)[::3]} | {s_.upper() for s_ in list(pool)[::7]}
     pool = sorted(pool)
     norm = ctx.model("spec_nuget_norm", [sx(s) for s in pool])
     accepted, normal = [], {}
@@ -80,6 +81,13 @@ def c02(ctx):
                           {"system": name, "version": a, "normalised": b}, observed=r, required=0)
     npairs = ctx.scale(8000, 250000)
     pairs = [(rng.choice(both), rng.choice(both)) for _ in range(npairs)] if both else []
+    # equality under case folding and zero padding is a clause of its own: every string against its case-swapped
+    # spelling and against the spelling with one more zero component (when both are accepted)
+    bset = set(both)
+    for s_ in both:
+        for t_ in (s_.swapcase(), s_.upper(), (s_.split(b"-")[0].split(b"+")[0] + b".0" + s_[len(s_.split(b"-")[0].split(b"+")[0]):])):
+            if t_ != s_ and t_ in bset:
+                pairs.append((s_, t_))
     got = ctx.impl("sv_syscompare", [sx([NUGET, a, b]) for a, b in pairs])
     want = ctx.model("spec_nuget_cmp", [sx([a, b]) for a, b in pairs])
     for (a, b), g, w in zip(pairs, got, want):
